@@ -28,14 +28,20 @@ What is proved here (model M4):
   maps (`no_connections_no_objects_no_services`, from the registry cross-reference invariant of C03: every object
   has a connected owner, every service a live object) — hence also no subscription, which lives inside a service
   entry or a connection entry.
-Partial: channels and bus listeners of removed connections (gauges are proved, "owner is connected" is not), and
-that every affected peer is *notified* once; these are covered by the correspondence runs (every scenario ends by
+* likewise no channel and no bus listener (`no_connections_no_channels_no_listeners`, from the ownership invariant of
+  C05: every channel has a claimed end, every claimed end and every listener a connected owner), and in every
+  reachable state no call (`no_connections_no_calls`, from the callee-side invariant of C02) — together the seven
+  `debug_assert!`s at the end of `Broker::run` (`conns`, `obj_uuids`, `objs`, `svc_uuids`, `svcs`, `function_calls`
+  empty; no work left) and "no residual state";
+Partial: that every affected peer is *notified* once; these are covered by the correspondence runs (every scenario ends by
 closing everything in one of two orders, comparing `take_statistics` with the model and the model's gauges with
 its map sizes, and requiring `Broker::run` to finish), not by a theorem.
 -/
 import Aldrin.Lemmas.Broker.Gauge5
 import Aldrin.Lemmas.Broker.Xref2
 import Aldrin.Lemmas.Broker.Reg
+import Aldrin.Lemmas.Broker.Own
+import Aldrin.Lemmas.Broker.Callee
 
 namespace Aldrin.Broker
 open Generated
@@ -150,6 +156,40 @@ theorem no_connections_no_objects_no_services (es : List Event) (b : Broker) (w 
   obtain ⟨k, sv, hf⟩ := AL.exists_find_of_ne_nil hne
   obtain ⟨info, hi⟩ := h6 k.1 k.2 sv.cookie sv.objCookie (sk_find (k := (k.1, k.2)) hf)
   simp [suv, hsu, AL.find?] at hi
+
+/-- for ALL histories: once all connections are gone the broker holds no channels and no bus listeners -/
+theorem no_connections_no_channels_no_listeners (es : List Event) (b : Broker) (w : Work) (outs : List (List Out))
+    (h : run {} {} es = .ok (b, w, outs)) (hc : b.conns = []) : b.channels = [] ∧ b.listeners = [] := by
+  have hown := run_own es _ _ _ _ _ G2_init Own.init h
+  have hch := (run_CLInv es _ _ _ _ _ CLInv_init h).1
+  have nobody : ∀ x o, own ⟨b, w, []⟩ x = some o → False := by
+    intro x o hx
+    rcases hown.o1 x o hx with ⟨L, hl, _⟩ | ⟨L, hp, _⟩
+    · simp [co, cv, hc, AL.find?] at hl
+    · simp at hp
+  constructor
+  · false_or_by_contra
+    rename_i hne
+    obtain ⟨ck, ch, hf⟩ := AL.exists_find_of_ne_nil hne
+    obtain ⟨os, or⟩ := own_chan (s := ⟨b, w, []⟩) hf
+    have hwf : ch.WF := (AllV_find hch hf).1
+    rcases hwf with hs | hr
+    · cases hse : ch.sender <;> simp [hse, EndState.isClaimed] at hs
+      exact nobody _ _ (by rw [os, hse]; rfl)
+    · cases hre : ch.receiver <;> simp [hre, EndState.isClaimed] at hr
+      exact nobody _ _ (by rw [or, hre]; rfl)
+  · false_or_by_contra
+    rename_i hne
+    obtain ⟨ck, l, hf⟩ := AL.exists_find_of_ne_nil hne
+    exact nobody (.lsn, ck) l.conn (by simp [own, hf])
+
+/-- in every reachable state: once all connections are gone the call table is empty -/
+theorem no_connections_no_calls {b : Broker} {w : Work} (h : Reachable b w) (hc : b.conns = []) : b.calls.elems = [] := by
+  false_or_by_contra
+  rename_i hne
+  obtain ⟨bs, call, hf⟩ := AL.exists_find_of_ne_nil hne
+  obtain ⟨sv, info, o, owner, _, _, _, _, _, hown⟩ := callee_of_call (s := ⟨b, w, []⟩) h.cal h.reg.2 (bs := bs) (call := call) hf
+  simp [hc, AL.find?] at hown
 
 theorem no_connections_no_live_call {b : Broker} {w : Work} (h : Reachable b w) (hc : b.conns = []) {bs : Nat} {call : Call}
     (hg : b.calls.get? bs = some call) : call.aborted = true :=
